@@ -190,7 +190,11 @@ def _run_diagonalize(case, T, rng, g, dtype, base):
     keys = [_rand(g, s, dtype) for s in shapes]
     grads = {k: _rand(g, k.shape, dtype) for k in _shuffled(rng, keys)}
     order = _shuffled(rng, keys)
-    res = T.Diagonalize(order)(T.Gradients(grads))
+    tr = T.Diagonalize(order)
+    if rng.random() < 0.5:
+        # the SAME transform object has been applied before, to other values: a transform is a function of its input only
+        tr(T.Gradients({k: _rand(g, k.shape, dtype) for k in keys}))
+    res = tr(T.Gradients(grads))
     R = sum(k.numel() for k in keys)
     if type(res) is not T.Jacobians or set(map(id, res.keys())) != set(map(id, keys)):
         return _fail(base, "C15.Diagonalize", "Diagonalize: wrong output type or key set")
